@@ -101,7 +101,7 @@ def run(cmd, cwd, timeout, mem_gb, log):
 
 
 CHECK_RE = re.compile(
-    r"^Check \d+: (?P<id>\S+)\n\s+- Status: (?P<status>\S+)\n\s+- Description: \"(?P<desc>.*)\"\n(?:\s+- Location: (?P<loc>.*)\n)?",
+    r"^Check \d+: (?P<id>.+)\n\s+- Status: (?P<status>\S+)\n\s+- Description: \"(?P<desc>.*)\"\n(?:\s+- Location: (?P<loc>.*)\n)?",
     re.M,
 )
 
@@ -118,27 +118,40 @@ def parse(text, res):
     m = re.search(r"Verification Time: ([0-9.]+)s", text)
     if m:
         res["cbmc_s"] = round(float(m.group(1)), 1)
-    failed, unwind_fail, uncovered = [], False, []
+    failed, unwind_fail, uncovered, undetermined = [], False, [], 0
     for c in CHECK_RE.finditer(text):
         st = c.group("status")
-        if st in ("FAILURE", "UNDETERMINED"):
-            d = "%s: %s [%s]" % (c.group("id"), c.group("desc"), (c.group("loc") or "").strip())
+        if st == "FAILURE":
+            d = "%s: %s [%s]" % (c.group("id")[:160], c.group("desc"), (c.group("loc") or "").strip()[:200])
             if "unwinding assertion" in c.group("desc"):
                 unwind_fail = True
                 failed.append(d)
             else:
-                failed.insert(0, d) if st == "FAILURE" else failed.append(d)
+                failed.insert(0, d)
+        elif st == "UNDETERMINED":
+            # only arises as a consequence of a failed unwinding assertion / unsupported construct
+            undetermined += 1
         elif st in ("UNSATISFIABLE", "UNREACHABLE") and ".cover." in c.group("id"):
             uncovered.append("%s: %s" % (c.group("id"), c.group("desc")))
     res["failed_descriptions"] = failed[:10]
+    res["checks_undetermined"] = undetermined
     if uncovered:
         res["uncovered"] = uncovered[:10]
     verdict = re.search(r"VERIFICATION:- (\w+)", text)
     if verdict and verdict.group(1) == "SUCCESSFUL":
         res["status"] = "SUCCESS"
     elif verdict and verdict.group(1) == "FAILED":
-        real = [f for f in failed if "unwinding assertion" not in f]
-        res["status"] = "UNWIND_FAILURE" if (unwind_fail and not real) else "FAILURE"
+        low = text.lower()
+        crashed = re.search(r"CBMC failed with status|CBMC timed out|CBMC crashed", text) is not None
+        if "out of memory" in low or "bad_alloc" in low or "memory allocation of" in low:
+            # CBMC (or the driver) died: no verdict
+            res["status"] = "OOM"
+        elif crashed and res["checks_total"] == 0:
+            res["status"] = "ERROR"
+            res["error_tail"] = [l for l in text.strip().splitlines() if l.strip()][-8:]
+        else:
+            real = [f for f in failed if "unwinding assertion" not in f]
+            res["status"] = "UNWIND_FAILURE" if (unwind_fail and not real) else "FAILURE"
     else:
         low = text.lower()
         if "memory allocation of" in low or "bad_alloc" in low or "out of memory" in low or "cannot allocate memory" in low:
